@@ -747,7 +747,8 @@ func (c *c02) leafFacts() {
 	{
 		l := c.lfOf(ru, c02DM+"TryBytesLen", "TryBytesLen")
 		r := l.one("pkg/bitio.ReadFull", "R")
-		l.argsAre("read", r, "recv.bitBuf (make []byte p0 p0) 8*p0", "ReadFull(reader, fresh nBytes buffer, nBytes*8)")
+		l.clampedCount(r, "(#0 (call (*pkg/decode.D).TryBitsLeft recv))")
+		l.argsAre("read", r,"recv.bitBuf (make []byte p0 p0) 8*p0", "ReadFull(reader, fresh nBytes buffer, nBytes*8)")
 		l.passThrough("value", r, "(make []byte p0 p0)", "returned buffer and error")
 	}
 	// BitsByteCount
@@ -1912,6 +1913,8 @@ func init() {
 	ctl("c02-leaf-unary", "C02.leaf", rd, "		if b != ov {\n			break\n		}\n		n++", "		n++\n		if b != ov {\n			break\n		}", "tryUnary:value")
 	ctl("c02-leaf-uintbits", "C02.leaf", dc, "return bitio.Read64(buf[:], 0, int64(nBits)), nil // TODO: int64", "return bitio.Read64(buf[:], 1, int64(nBits)), nil // TODO: int64", "TryUintBits:value")
 	ctl("c02-leaf-bytescount", "C02.leaf", rd, "	b := int(bitio.BitsByteCount(int64(nBits)))\n	buf := d.SharedReadBuf(b)[0:b]", "	b := nBits / 8\n	buf := d.SharedReadBuf(b)[0:b]", "tryBigIntEndianSign:buf")
+	ctl("c02-leaf-byteslen-clamp-short", "C02.leaf", dc, "\t\tif maxBytes := bitsLeft/8 + 1; maxBytes > 0 && int64(nBytes) > maxBytes {", "\t\tif maxBytes := bitsLeft / 8; maxBytes > 0 && int64(nBytes) > maxBytes {", "TryBytesLen:read")
+	ctl("c02-leaf-byteslen-clamp-always", "C02.leaf", dc, "\t\tif maxBytes := bitsLeft/8 + 1; maxBytes > 0 && int64(nBytes) > maxBytes {", "\t\tif maxBytes := bitsLeft/8 + 1; maxBytes > 0 && int64(nBytes) != maxBytes {", "TryBytesLen:clamp")
 	ctl("c02-guard-uint64", "C02.guard", dc, "if nBits < 0 || nBits > 64 {\n		return 0, fmt.Errorf(\"nBits must be 0-64 (%d)\", nBits)", "if nBits < 0 || nBits > 65 {\n		return 0, fmt.Errorf(\"nBits must be 0-64 (%d)\", nBits)", "TryUintBits:bounds")
 	ctl("c02-guard-signed", "C02.guard", rd, "	if nBits < 1 {\n		return 0, fmt.Errorf(\"trySEndian nBits must be >= 1 (%d)\", nBits)", "	if nBits < 0 {\n		return 0, fmt.Errorf(\"trySEndian nBits must be >= 1 (%d)\", nBits)", "trySEndian:bounds")
 	ctl("c02-guard-left", "C02.guard", rd, "	if int64(nBytes) > bytesLeft {\n		return \"\", fmt.Errorf(\"tryText nBytes %d outside buffer, %d bytes left\", nBytes, bytesLeft)\n	}", "	if int64(nBytes) > bytesLeft*8 {\n		return \"\", fmt.Errorf(\"tryText nBytes %d outside buffer, %d bytes left\", nBytes, bytesLeft)\n	}", "tryText:left")
@@ -1925,4 +1928,49 @@ func init() {
 	ctl("c02-err-drop", "C02.err", rd, "	n, err := d.TryUintBits(nBits)\n	if err != nil {\n		return 0, err\n	}\n	if endian == LittleEndian {\n		n = bitio.ReverseBytes64(nBits, n)\n	}\n\n	return n, nil", "	n, _ := d.TryUintBits(nBits)\n	if endian == LittleEndian {\n		n = bitio.ReverseBytes64(nBits, n)\n	}\n\n	return n, nil", "tryUEndian")
 	ctl("c02-err-readfull", "C02.err", dc, "	_, err := bitio.ReadFull(d.bitBuf, buf, int64(nBits))\n	if err != nil {\n		return nil, err\n	}\n\n	return buf[:], nil", "	_, _ = bitio.ReadFull(d.bitBuf, buf, int64(nBits))\n\n	return buf[:], nil", "TryBits")
 	ctl("c02-pos-norestore", "C02.pos", dc, "	n, err := d.TryUintBits(nBits)\n	if _, err := d.bitBuf.SeekBits(start, io.SeekStart); err != nil {\n		return 0, err\n	}\n	return n, err", "	n, err := d.TryUintBits(nBits)\n	if err != nil {\n		return 0, err\n	}\n	if _, err := d.bitBuf.SeekBits(start, io.SeekStart); err != nil {\n		return 0, err\n	}\n	return n, err", "TryPeekBits")
+}
+
+// clampedCount accepts the allocation clamp of the byte readers: the count handed to make and to
+// the read is either the caller's count p0, or — only when p0 is larger — a count c with
+// 8*c > bits left (c = 1 + left/8), so the read of 8*c bits must fail exactly as the read of
+// 8*p0 bits would and nothing shorter than asked is ever returned as a success. A phi of that
+// shape is then treated as p0. Any other clamp (left/8 without the +1, a clamp chosen under
+// another test) is left as it is and fails the rule's exact-argument facts.
+func (l *c02Lf) clampedCount(r *ssa.Call, left string) {
+	if l.dead || r == nil {
+		return
+	}
+	want := "1 + (/ " + left + " 8)"
+	seen := map[*ssa.Phi]bool{}
+	fw.EachInstr(l.fn, func(ins ssa.Instruction) {
+		mk, ok := ins.(*ssa.MakeSlice)
+		if !ok {
+			return
+		}
+		ph := c02PhiOf(mk.Len)
+		if ph == nil || seen[ph] {
+			return
+		}
+		seen[ph] = true
+		nClamp := 0
+		for _, ed := range ph.Edges {
+			s := l.env.Of(ed)
+			switch s {
+			case "p0":
+			case want:
+				nClamp++
+				gs, _ := l.env.EdgeGuards(ph, s)
+				if !c02HasAny(gs, "+(> p0 "+want+")", "-(<= p0 "+want+")", "+(< "+want+" p0)", "-(>= "+want+" p0)") {
+					l.ru.Fail(l.name+":clamp", l.pos, "the count is clamped to "+want+" under "+strings.Join(gs, " ")+", must be only when p0 is larger")
+					return
+				}
+			default:
+				return
+			}
+		}
+		if nClamp > 0 {
+			l.ru.Ok(l.name+":clamp", l.pos, "count is p0, or "+want+" when p0 is larger (the read then fails)")
+			l.alias(ph, "p0")
+		}
+	})
 }
